@@ -19,7 +19,6 @@ import (
 	"fmt"
 	"os"
 	"path/filepath"
-	"regexp"
 	"sort"
 	"strconv"
 	"strings"
@@ -237,21 +236,11 @@ func c09ScanOne(src string) (tok token.Token, lit string, whole bool, nerr int, 
 	return
 }
 
-// strStartsTwoQuotes: the syntactic class of the known WithOptionalHashes defect: s begins
-// with two quote characters of the form's kind and the third byte is not '#'.
-func c09TwoLeadingQuotes(s string, q byte) bool {
-	return len(s) >= 2 && s[0] == q && s[1] == q && (len(s) == 2 || s[2] != '#')
-}
-
 func c09QuoteCase(c *Cfg, fm c09Form, s string, seenLit *sync.Map) {
 	if !fm.byt && !utf8.ValidString(s) {
 		// String/Label quoting of invalid UTF-8 is documented as lossy (U+FFFD); the
 		// model is still compared, the round trip is not demanded.
 		c.Count("quote/string-invalid-utf8")
-	}
-	q := byte('"')
-	if fm.byt {
-		q = '\''
 	}
 	out, pan := c09Quote(fm.f, s)
 	if pan {
@@ -270,20 +259,12 @@ func c09QuoteCase(c *Cfg, fm c09Form, s string, seenLit *sync.Map) {
 	if fm.byt || utf8.ValidString(s) {
 		back, ans := c09Unquote(out)
 		ok := strings.HasPrefix(ans, "ok") && back == s
-		class := "roundtrip"
-		if !ok && fm.hash && !fm.ml && !(fm.auto && strings.Contains(s, "\n")) && c09TwoLeadingQuotes(s, q) && ans == "err opening-newline" {
-			class = "optional-hashes-two-leading-quotes"
-		}
-		c.Direct(ok, class, "Unquote("+fm.desc+".Quote(s)) != s: quoted="+strconv.QuoteToASCII(out)+" unquote="+ans,
+		c.Direct(ok, "roundtrip", "Unquote("+fm.desc+".Quote(s)) != s: quoted="+strconv.QuoteToASCII(out)+" unquote="+ans,
 			map[string]string{"form": fm.desc, "s_hex": H(s), "s": strconv.QuoteToASCII(s), "quoted": strconv.QuoteToASCII(out)})
 		// the scanner must read the literal as one STRING token
 		tok, _, whole, nerr, span := c09ScanOne(out)
 		sok := !span && tok == token.STRING && whole && nerr == 0
-		class = "quoted-not-one-string-token"
-		if !sok && fm.hash && !fm.ml && !(fm.auto && strings.Contains(s, "\n")) && len(s) >= 2 && s[0] == q && s[1] == q {
-			class = "optional-hashes-two-leading-quotes"
-		}
-		c.Direct(sok, class, "scanner does not read "+fm.desc+".Quote(s) as one STRING token: "+strconv.QuoteToASCII(out),
+		c.Direct(sok, "quoted-not-one-string-token", "scanner does not read "+fm.desc+".Quote(s) as one STRING token: "+strconv.QuoteToASCII(out),
 			map[string]string{"form": fm.desc, "s_hex": H(s), "quoted": strconv.QuoteToASCII(out)})
 	}
 	if fm.asc {
@@ -367,11 +348,7 @@ func c09UnquoteStream(c *Cfg, r *Rng) {
 		seen[lit] = true
 		_, ans := c09Unquote(lit)
 		if ans == "err panic" {
-			cl := "unquote-panic"
-			if c09UOverflow.MatchString(lit) {
-				cl = "unquote-U-escape-int32-overflow"
-			}
-			c.Direct(false, cl, "literal.Unquote panics on "+strconv.QuoteToASCII(lit), map[string]string{"lit_hex": H(lit)})
+			c.Direct(false, "unquote-panic", "literal.Unquote panics on "+strconv.QuoteToASCII(lit), map[string]string{"lit_hex": H(lit)})
 		} else {
 			c.Direct(true, "unquote-panic", "", nil)
 		}
@@ -452,13 +429,9 @@ func c09UnquoteStream(c *Cfg, r *Rng) {
 	}
 }
 
-var c09UOverflow = regexp.MustCompile(`\\#*U[89a-fA-F][0-9a-fA-F]{7}`)
-
 // narrow syntactic classes of the scanner/literal disagreements known on the unchanged tree
 func c09StringDisagreeClass(lit string, scanOK, litOK bool, ans string) string {
 	switch {
-	case c09UOverflow.MatchString(lit):
-		return "unquote-U-escape-int32-overflow"
 	case strings.Contains(lit, "\ufeff") && !scanOK && litOK:
 		return "string-raw-bom"
 	case scanOK && ans == "err surrogate":
@@ -578,12 +551,7 @@ func c09WellPositioned(root ast.Node, size int) (fails []c09PosFail, nodes int, 
 						continue
 					}
 					if lo < fr.lo || hi > fr.hi {
-						class := "node-position"
-						if d, isImp := fr.n.(*ast.ImportDecl); isImp && !d.Rparen.IsValid() && len(d.Specs) > 1 {
-							// known: ImportDecl.End() is Specs[0].End() when the ')' is missing
-							class = "importdecl-end-missing-rparen"
-						}
-						bad(class, "%T [%d,%d) not within parent %T [%d,%d)", n, lo, hi, fr.n, fr.lo, fr.hi)
+						bad("node-position", "%T [%d,%d) not within parent %T [%d,%d)", n, lo, hi, fr.n, fr.lo, fr.hi)
 					}
 					break
 				}
@@ -747,6 +715,7 @@ func c09Corpus(c *Cfg) [][]byte {
 }
 
 var c09SoupToks = []string{
+	"import (\n\t\"a\"\n\t\"b\"\n", "import (\n\t\"a\"\n\tx \"b\"", "import \"a\"\n",
 	"a", "b", "_", "#D", "_#x", "foo", "if", "for", "in", "let", "import", "package", "true", "false", "null", "_|_", "1", "0", "1.5", "0x1F", "1e3", "2Ki", ".5", "1..", "0b102", "1_0",
 	`"s"`, `'b'`, `"\(`, `)"`, `"a\(x)b"`, `#"r"#`, "\"\"\"\n\ta\n\t\"\"\"", `"`, `'`, `"""`, "`",
 	"{", "}", "[", "]", "(", ")", ":", ",", ";", ".", "..", "...", "?", "!", "=", "==", "!=", "<", "<=", ">", ">=", "<-", "=~", "!~", "&", "|", "&&", "||", "+", "-", "*", "/", "~", "@a(b)", "@", "//c\n", "/", " ", "\n", "\t", "\r\n", "\\", "$", "#", "%", "^", "\x00", "\x80", "\ufeff", "é", "div", "mod", "quo", "rem", "X=", "[string]:", "[...]", "if x {", "for k, v in y {", "let x = ", "a.b", "a[0]", "a[1:2]", "f(x)", "*1 | 2", "x: y: z",
